@@ -41,6 +41,8 @@ ENOLS = [
 PAIR_ALPHABET = [
     "C=CO", "CC(O)O", "CC(C)(O)OC", "OC=CO", "C=C[O-]", "[Na+]", "O", "CC=O", "CCO",
     "c1ccccc1O", "OC1(C)CCCO1", "CC(=O)O",
+    # molecules whose SMILES text contains the text of a rewritable molecule (ethers / esters of the same enol or hemiketal)
+    "C=COC", "C=COC(C)=O", "C=COC=C", "CC(C)(O)OCC", "CC(O)OC",
 ]
 
 
